@@ -623,6 +623,23 @@ Vetoed(s, m) ==
 
 Do(s, m) == IF s.nl = 0 THEN Do0(s, m) ELSE WithHooks(s, m, Do0(s, m))
 
+(* Module events (spec/06_events.md, keeper/auction.go, keeper/bid.go): one event per successful create, *)
+(* cancel and place-bid, with the values the operation used; nothing else emits module events.          *)
+EventsOf(s, m, r) ==
+  IF ~r.ok THEN <<>>
+  ELSE CASE m.a = "CreateFixed" ->
+              <<[type |-> "create_fixed_price_auction", id |-> s.aseq, by |-> m.by, sell |-> SellAcc(s.aseq), pay |-> PayAcc(s.aseq),
+                 vest |-> VestAcc(s.aseq), price |-> m.price, sellDenom |-> m.sellDenom, sellAmt |-> m.sellAmt, payDenom |-> m.payDenom,
+                 remaining |-> m.sellAmt, start |-> m.start, end |-> m.end, status |-> IF m.start <= s.now THEN "Started" ELSE "StandBy"]>>
+         [] m.a = "CreateBatch" ->
+              <<[type |-> "create_batch_auction", id |-> s.aseq, by |-> m.by, sell |-> SellAcc(s.aseq), pay |-> PayAcc(s.aseq),
+                 vest |-> VestAcc(s.aseq), price |-> m.price, sellDenom |-> m.sellDenom, sellAmt |-> m.sellAmt, payDenom |-> m.payDenom,
+                 start |-> m.start, end |-> m.end, status |-> IF m.start <= s.now THEN "Started" ELSE "StandBy",
+                 minPrice |-> m.minPrice, maxExt |-> m.maxExt, rate |-> m.rate]>>
+         [] m.a = "Cancel" -> <<[type |-> "cancel_auction", id |-> m.id]>>
+         [] m.a = "Bid" -> <<[type |-> "place_bid", id |-> m.id, by |-> m.by, price |-> m.price, denom |-> m.denom, amt |-> m.amt]>>
+         [] OTHER -> <<>>
+
 InitState(bal0, params0, switch0) ==
   [now |-> 0, params |-> params0, aseq |-> 0, auctions |-> <<>>, allowed |-> <<>>,
    bids |-> <<>>, bseq |-> <<>>, vqs |-> <<>>, lastMatched |-> <<>>,
